@@ -187,6 +187,15 @@ class WindowedBinaryAUROC(Metric[torch.Tensor]):
                 self.inputs.squeeze(), self.targets.squeeze(), self.weights.squeeze()
             )
 
+    def reset(self: TAUROC) -> TAUROC:
+        """
+        Reset the metric state variables to their default value and rewind
+        the window cursor, which is not a registered state.
+        """
+        super().reset()
+        self.next_inserted = 0
+        return self
+
     @torch.inference_mode()
     def merge_state(self: TAUROC, metrics: Iterable[TAUROC]) -> TAUROC:
         """
